@@ -12,7 +12,12 @@ import (
 type userOpts struct {
 	bounds bool
 	pkg    string // "" = package main with the stdin driver; otherwise a library package exporting Handle
+	typed  bool   // every user rule gets its own result type *N<rule> (defined as Node), so that casts are exercised with distinct types
 }
+
+// typedRules switches goTermType to per-rule result types (set by genUserGo for the duration of one rendering;
+// renderings are sequential).
+var typedRules bool
 
 func goTermType(d *jDump, t jTerm) string {
 	if t.T {
@@ -24,6 +29,9 @@ func goTermType(d *jDump, t jTerm) string {
 	r := d.Rules[t.I]
 	switch r.Kind {
 	case "not_generated":
+		if typedRules {
+			return fmt.Sprintf("*N%d", r.Index)
+		}
 		return "*Node"
 	case "zero_or_one":
 		return goTermType(d, d.Prods[r.Prods[0]].Terms[0])
@@ -74,6 +82,8 @@ func genUserGo(d *jDump, o userOpts) string {
 		prelude = prelude[:i] + "var _ = bufio.NewReader\nvar _ = os.Stdin\nvar _ = time.Second\n" + prelude[j+len("//MAIN-END"):]
 	}
 	sb.WriteString(prelude)
+	typedRules = o.typed
+	defer func() { typedRules = false }()
 	cls := prodClasses(d)
 	for _, r := range d.Rules {
 		if r.Kind != "not_generated" {
@@ -89,8 +99,20 @@ func genUserGo(d *jDump, o userOpts) string {
 				params = append(params, fmt.Sprintf("a%d %s", i, goTermType(d, t)))
 				args = append(args, fmt.Sprintf("a%d", i))
 			}
+			if o.typed {
+				fmt.Fprintf(&sb, "func (p *P) on_%s__c%d(%s) *N%d {\n\tn := &Node{Prod: %d, Args: []any{%s}}\n\tp.log = append(p.log, \"R%d=\"+ser(n))\n\treturn (*N%d)(n)\n}\n\n",
+					r.Name, pi, strings.Join(params, ", "), r.Index, pi, strings.Join(args, ", "), pi, r.Index)
+				continue
+			}
 			fmt.Fprintf(&sb, "func (p *P) on_%s__c%d(%s) *Node {\n\tn := &Node{Prod: %d, Args: []any{%s}}\n\tp.log = append(p.log, \"R%d=\"+ser(n))\n\treturn n\n}\n\n",
 				r.Name, pi, strings.Join(params, ", "), pi, strings.Join(args, ", "), pi)
+		}
+	}
+	if o.typed {
+		for _, r := range d.Rules {
+			if r.Kind == "not_generated" {
+				fmt.Fprintf(&sb, "type N%d Node\n\nfunc (n *N%d) Discard() bool { return (*Node)(n).Discard() }\n\n", r.Index, r.Index)
+			}
 		}
 	}
 	if o.bounds {
@@ -159,6 +181,9 @@ func ser(v any) string {
 		return "N(" + strings.Join(parts, ",") + ")"
 	}
 	rv := reflect.ValueOf(v)
+	if rv.Kind() == reflect.Ptr && rv.Type().ConvertibleTo(reflect.TypeOf((*Node)(nil))) {
+		return ser(rv.Convert(reflect.TypeOf((*Node)(nil))).Interface())
+	}
 	if rv.Kind() == reflect.Slice {
 		if rv.Len() == 0 {
 			return "Z"
